@@ -869,6 +869,17 @@ func sortOf(t *Term) string {
 }
 
 // write prints the term; named maps term IDs to names already bound.
+// AbsDivPrint makes wide division/remainder print as uninterpreted functions
+// (sound abstraction: equal operands give equal results); see Solver.AbsDiv.
+var absDivPrint bool
+var absDivUsed map[string]int
+
+func isAbsDiv(t *Term) bool {
+	return absDivPrint && t.W >= 16 && (t.Op == OUDiv || t.Op == OURem || t.Op == OSDiv || t.Op == OSRem) && !(t.Args[0].IsConst() && t.Args[1].IsConst())
+}
+
+func absDivName(t *Term) string { return fmt.Sprintf("absdiv_%s_%d", opNames[t.Op], t.W) }
+
 func (t *Term) write(sb *strings.Builder, named map[int]string, depth int) {
 	if named != nil {
 		if n, ok := named[t.ID]; ok {
@@ -919,7 +930,13 @@ func (t *Term) write(sb *strings.Builder, named map[int]string, depth int) {
 		sb.WriteString(")")
 	default:
 		sb.WriteString("(")
-		sb.WriteString(opNames[t.Op])
+		if isAbsDiv(t) {
+			n := absDivName(t)
+			absDivUsed[n] = t.W
+			sb.WriteString(n)
+		} else {
+			sb.WriteString(opNames[t.Op])
+		}
 		for _, a := range t.Args {
 			sb.WriteString(" ")
 			a.write(sb, named, depth+1)
